@@ -9,7 +9,7 @@ import ast
 import re
 
 from ..engine import rule
-from ..py_frontend import (dotted, call_name, calls_under, walk, param_names, bind_call, is_name,
+from ..py_frontend import (pmatch, dotted, call_name, calls_under, walk, param_names, bind_call, is_name,
                            src, pycfg, names_in)
 from ..bridge import binding_table
 
@@ -436,18 +436,34 @@ def _guards(mod, fn):
 
 F6_TABLE = {
     'tree_transpose': [
-        ('none_is_leaf-equal', lambda t: 'none_is_leaf' in t and '!=' in t, 'ValueError'),
-        ('non-empty', lambda t: re.search(r'== 0', t) is not None, 'ValueError'),
-        ('namespace-compatible', lambda t: 'namespace' in t and '!=' in t, 'ValueError'),
-        ('leaf-count-product', lambda t: 'num_leaves' in t and '*' in t, 'TypeError'),
+        ('none_is_leaf-equal', lambda t, r: 'none_is_leaf' in t and '!=' in t, 'ValueError'),
+        ('non-empty', lambda t, r: re.search(r'== 0', t) is not None, 'ValueError'),
+        ('namespace-compatible', lambda t, r: 'namespace' in t and '!=' in t, 'ValueError'),
+        ('leaf-count-product', lambda t, r: 'num_leaves' in t and '*' in t, 'TypeError'),
     ],
     'tree_transpose_map': [
-        ('outer-non-empty', lambda t: 'outer_treespec.num_leaves == 0' in t, 'ValueError'),
-        ('inner-non-empty', lambda t: 'inner_treespec.num_leaves == 0' in t, 'ValueError'),
+        ('outer-non-empty', lambda t, r: '%s.num_leaves == 0' % r['outer'] in t, 'ValueError'),
+        ('inner-non-empty', lambda t, r: '%s.num_leaves == 0' % r['inner'] in t, 'ValueError'),
     ],
 }
 F6_TABLE['tree_transpose_map_with_path'] = F6_TABLE['tree_transpose_map']
 F6_TABLE['tree_transpose_map_with_accessor'] = F6_TABLE['tree_transpose_map']
+
+
+def _transpose_roles(fn):
+    """names of the outer and the inner treespec in a transpose function: parameters where they
+    are parameters; otherwise the outer one is the treespec of the function's own flatten call"""
+    ps = {a.arg for a in fn.args.posonlyargs + fn.args.args + fn.args.kwonlyargs}
+    if 'inner_treespec' not in ps:
+        return None
+    if 'outer_treespec' in ps:
+        return {'outer': 'outer_treespec', 'inner': 'inner_treespec'}
+    for s_ in fn.body:
+        if isinstance(s_, ast.Assign) and isinstance(s_.value, ast.Call) and \
+                (call_name(s_.value) or '').startswith('_C.flatten') and isinstance(s_.targets[0], ast.Tuple) \
+                and isinstance(s_.targets[0].elts[-1], ast.Name):
+            return {'outer': s_.targets[0].elts[-1].id, 'inner': 'inner_treespec'}
+    return None
 
 
 @rule('F6', floor=10, title='documented rejections dominate the regrouping work')
@@ -460,8 +476,10 @@ def f6(ctx):
         rets = [s for s in walk(fn) if isinstance(s, ast.Return)]
         ctx.require(len(rets) == 1, '%s has %d return statements' % (name, len(rets)))
         rn = cfg.node_of(rets[0])
+        roles = _transpose_roles(fn)
+        ctx.require(roles is not None, '%s: outer / inner treespec not recognised' % name)
         for gid, pred, exc in table:
-            hit = [(s, e) for s, e in guards if pred(src(s.test))]
+            hit = [(s, e) for s, e in guards if pred(src(s.test), roles)]
             ok = False
             why = 'no such rejection'
             for s, e in hit:
@@ -519,8 +537,16 @@ def f6(ctx):
             m = re.fullmatch(r'%s \+ (\w+)' % re.escape(var or '?'), hi)
             if m and lo == var:
                 width = m.group(1)
-            ok = width is not None and step == width and start == '0' and \
-                stop in ('outer_size * %s' % width, '%s * outer_size' % width) and width == 'inner_size'
+            roles = _transpose_roles(fn)
+            sizes = {}      # local -> which treespec's num_leaves it holds
+            for s_ in fn.body:
+                for who in ('outer', 'inner'):
+                    m_ = pmatch(s_, '?v = %s.num_leaves' % roles[who])
+                    if m_ is not None:
+                        sizes[m_['v']] = who
+            mstop = re.fullmatch(r'(\w+) \* (\w+)', stop)
+            ok = width is not None and step == width and start == '0' and sizes.get(width) == 'inner' and \
+                mstop is not None and sorted(sizes.get(x, '?') for x in mstop.groups()) == ['inner', 'outer']
             why = 'slice [%s:%s] over range(%s, %s, %s)' % (lo, hi, start, stop, step)
     ctx.check('tree_transpose/chunks', ok,
               'tree_transpose cuts the m*n leaves into m chunks of width n = stride n = inner_size',
@@ -529,9 +555,19 @@ def f6(ctx):
     for name in ('tree_transpose', 'tree_transpose_map', 'tree_transpose_map_with_path',
                  'tree_transpose_map_with_accessor'):
         fn = mod.func(name)
-        text = '\n'.join(src(s) for s in fn.body[-3:])
-        ok = 'zip(*grouped)' in text and 'map(outer_treespec.unflatten, transposed)' in text and \
-            'inner_treespec.unflatten(subtrees)' in text
+        roles = _transpose_roles(fn)
+        ctx.require(roles is not None, '%s: outer / inner treespec not recognised' % name)
+        env = {'outer': roles['outer'], 'inner': roles['inner']}
+        ok = False
+        for s1 in fn.body:
+            e1 = pmatch(s1, '?tr = zip(*?g)', env)
+            if e1 is None:
+                continue
+            for s2 in fn.body:
+                e2 = pmatch(s2, '?st = map(?outer.unflatten, ?tr)', e1)
+                if e2 is not None and isinstance(fn.body[-1], ast.Return) and \
+                        pmatch(fn.body[-1].value, '?inner.unflatten(?st)', e2) is not None:
+                    ok = True
         ctx.check(name + '/zip-transpose', ok,
                   '%s: zip(*grouped) swaps the two dimensions; outer.unflatten rebuilds each '
                   'column, inner.unflatten the result' % name,
@@ -776,7 +812,7 @@ def k7py(ctx):
             if c1 is not None and c2 is not None and cfg.dominates(c1, rn):
                 f_succ = [w for (w, lab) in cfg.succ[c1] if lab is False]
                 tests['length'] = rn not in cfg.reachable(f_succ, skip_nodes={c2})
-        if re.search(r'len\(children\) != len\(entries\)', t) and body_raises and \
+        if re.search(r'len\((\w+)\) != len\((\w+)\)', t) and body_raises and \
                 call_name(body_raises[0].exc) == 'RuntimeError':
             cn = cfg.node_of(s.test)
             tests['entries'] = cn is not None and cfg.dominates(cn, rn)
